@@ -1,19 +1,28 @@
 #!/bin/bash
-# seedrun.sh <patch.diff> [check ids…] : apply the patch to /repo, run the quick checks, always undo.
-# Evidence files and replays of /verif are saved and restored, so a seeded run leaves no trace.
+# seedrun.sh <patch.diff> [check ids…] : apply the patch to a clean tree of /repo's HEAD, run the quick checks, always undo.
+# The checks run from a snapshot of the committed /verif (so that edits in progress cannot disturb them and the evidence
+# files of /verif are not touched).  SEED_IN_REPO=1 applies the patch to /repo itself (git -C /repo apply … ; checks ;
+# git -C /repo checkout -- .); the default is a private worktree of /repo's HEAD (/tmp/seedenv/repo), which is the same
+# tree but can be used while a background run or a sub-agent needs /repo untouched.
 P="$1"; shift
 IDS="$@"; [ -z "$IDS" ] && IDS="C01 C02 C03 C04 C05 C06 C07 C08 C09 C10 C11 C12 C13 C14 C15 C16 C17 C18"
-# the checks run from a snapshot of the committed /verif (so that edits in progress cannot disturb them, and
-# the evidence files of /verif are not touched)
-SNAP=/tmp/seedverif
+ENVD=${SEED_ENV:-/tmp/seedenv}
+SNAP=$ENVD/verif
+if [ -n "$SEED_IN_REPO" ]; then RP=/repo; else RP=$ENVD/repo; fi
+mkdir -p "$ENVD"
+if [ "$RP" != /repo ]; then
+  [ -d "$RP" ] || git -C /repo worktree add -q --detach "$RP" HEAD || exit 3
+  git -C "$RP" checkout -q -- . ; git -C "$RP" clean -fdq; git -C "$RP" checkout -q --detach "$(git -C /repo rev-parse HEAD)" || exit 3
+fi
 if [ -z "$SEED_KEEP_SNAPSHOT" ] || [ ! -d "$SNAP" ]; then
   rm -rf "$SNAP"; mkdir -p "$SNAP"; git -C /verif archive HEAD | tar -x -C "$SNAP"
+  sed -i "s#=> /repo#=> $RP#" "$SNAP/mc/go.mod" "$SNAP/third_party/goyacc/go.mod" 2>/dev/null
 fi
-export VERIF_DIR="$SNAP"
+export VERIF_DIR="$SNAP" REPO="$RP"
 cd "$SNAP"
-[ -z "$(git -C /repo status --porcelain)" ] || { echo "/repo is not clean"; exit 3; }
-git -C /repo apply "$P" || { echo "patch does not apply"; exit 3; }
-trap 'git -C /repo checkout -- . ; git -C /repo clean -fdq' EXIT
+[ -z "$(git -C "$RP" status --porcelain)" ] || { echo "$RP is not clean"; exit 3; }
+git -C "$RP" apply "$P" || { echo "patch does not apply"; exit 3; }
+trap 'git -C "$RP" checkout -- . ; git -C "$RP" clean -fdq' EXIT
 CAUGHT=""
 for id in $IDS; do
   out=$(./check.sh $id quick 2>&1); rc=$?
